@@ -385,6 +385,31 @@ def h_answers(E, idx):
     return 'ok'
 
 
+KWDICT = [('MatrixGrader', dict(answers='[1,2]', entry_partial_credit=0.5), '[1,3]'), ('MatrixGrader', dict(answers='[1,2]', entry_partial_msg='some wrong'), '[1,3]'),
+          ('MatrixGrader', dict(answers='[1,2]', entry_partial_credit='proportional', max_array_dim=2), '[1,3]'), ('FormulaGrader', dict(answers='x', variables=['x'], tolerance=0.1), 'x+0.05'),
+          ('StringGrader', dict(answers='Cat', case_sensitive=False), 'cat'), ('NumericalGrader', dict(answers='10', tolerance='20%'), '11'),
+          ('SingleListGrader', dict(answers=['a', 'b'], subgrader=None, ordered=True), 'b,a'), ('StringGrader', dict(answers=('a', 'b'), wrong_msg='no', debug=False), 'c'),
+          ('IntervalGrader', dict(answers=['(', '1', '2', ']']), '(1,2]'), ('SumGrader', dict(answers={'lower': '1', 'upper': '2', 'summand': 'n', 'summation_variable': 'n'}, even_odd=1), None)]
+
+
+def h_kwargs_dict(E, idx):
+    """keyword-argument and dictionary forms of the same configuration give equal graders that grade alike"""
+    import mitxgraders as m
+    cls, cfg, inp = KWDICT[idx]
+    cfg = dict(cfg)
+    if cls == 'SingleListGrader':
+        cfg['subgrader'] = m.StringGrader()
+    C = getattr(m, cls)
+    a = C(**copy.deepcopy({k: v for k, v in cfg.items() if k != 'subgrader'}), **({'subgrader': cfg['subgrader']} if 'subgrader' in cfg else {}))
+    b = C(dict(copy.deepcopy({k: v for k, v in cfg.items() if k != 'subgrader'}), **({'subgrader': cfg['subgrader']} if 'subgrader' in cfg else {})))
+    E.check('kwargs-and-dict-forms-equal', a == b and a.config == b.config)
+    if inp is not None:
+        ra, rb = a(None, inp), b(None, inp)
+        E.check('kwargs-and-dict-forms-grade-alike', ra == rb)
+    E.check('same-comparer-machinery', getattr(a, 'default_comparer', None).__class__ is getattr(b, 'default_comparer', None).__class__)
+    return 'ok'
+
+
 TYPES = [('FormulaGrader', 'samples', 2.5), ('FormulaGrader', 'samples', '3'), ('FormulaGrader', 'tolerance', '-5%'), ('FormulaGrader', 'tolerance', 'abc'),
          ('FormulaGrader', 'tolerance', None), ('FormulaGrader', 'variables', 'x'), ('FormulaGrader', 'variables', ['x', 'x']), ('FormulaGrader', 'debug', 1),
          ('StringGrader', 'min_length', 1.5), ('StringGrader', 'case_sensitive', 'yes'), ('StringGrader', 'explain_minimums', 'maybe'), ('StringGrader', 'wrong_msg', 3),
@@ -434,6 +459,8 @@ def harnesses(tier):
         add(h_unknown_key, 'unknown_key', dict(cls=cls), 'presence flag')
     for i in range(len(ANSWERS)):
         add(h_answers, 'answers', dict(i=i), '%s %r' % ANSWERS[i])
+    for i in range(len(KWDICT)):
+        add(h_kwargs_dict, 'kwargs_dict', dict(i=i), '%s %r' % (KWDICT[i][0], sorted(KWDICT[i][1])), validate=False)
     for i in range(len(TYPES)):
         add(h_types, 'types', dict(i=i), '%s.%s=%r' % TYPES[i])
     return hs
